@@ -77,3 +77,12 @@ Proof.
   intros He Hr Hs. unfold api_step. rewrite He.
   destruct o; cbn; auto; try (exfalso; eapply Hr; reflexivity); try (exfalso; apply Hs; reflexivity).
 Qed.
+
+(* Reset onto a new reader and option set leaves exactly a new decoder -- byte counter, buffer, tables, clock, accumulators,
+   error and header-once flag -- so every entry point behaves after Reset as on a decoder that was never used.  Rests on what
+   the source's reset() and Reset() clear (gen/DecoderReset.v) *)
+Theorem reset_is_new a bs c : source_resets_everything -> public_reset_clears_n = true ->
+  fst (api_step a (AReset bs c)) = api_new c bs.
+Proof.
+  intros [H1 H2] H3. cbn [api_step fst]. unfold api_new, init_state, reset_state. rewrite H1, H2, H3. reflexivity.
+Qed.
